@@ -20,9 +20,11 @@ pub enum Re {
     Group(Box<Re>),
 }
 
-pub const CLASSES: [&str; 16] = [
+pub const CLASSES: [&str; 28] = [
     "[a-c]", "[^a]", "[ab]", "[b-é]", "[a€𝄞]", r"\w", r"\d", r"\s", "[^\\n]", "[a-c&&[^b]]",
     "[[:alpha:]]", r"[\w--a]", "[€-𝄞]", r"\S", "[ac ]", r"[^\s\w]",
+    r"\pL", r"\PL", r"\pN", r"\PN", r"\p{Lowercase}", r"\P{Lowercase}", r"\p{Uppercase}",
+    r"\p{Alphabetic}", r"\P{Alphabetic}", r"[\pL\d]", r"\W", r"[^\PL]",
 ];
 
 fn lit_str(c: char) -> String {
